@@ -37,6 +37,7 @@ type pathRun struct {
 	nondets []nondetRec // declaration order
 	choices []int // every structural choice (harness, schedule, range order)
 	hchoices []int // the harness' own verifrt.Choice calls only (what a native run consumes)
+	knownHit bool  // a listed known finding was hit on this path (not a witness of agreement)
 	asserts int // assertions discharged on this path
 	trivial int // assertions that were concretely true
 	queries int
@@ -295,7 +296,7 @@ func (e *Explorer) runPath(spec pathSpec, solver *Solver) {
 		}
 		need := len(e.witnesses) < wantW || (e.cfg.Witnesses > 3 && e.pathsDone%97 == 0 && len(e.witnesses) < 4*wantW)
 		e.mu.Unlock()
-		if need {
+		if need && !i.run.knownHit {
 			res, m := i.solver.Check(nil, e.cfg.AssertTimeout, i.tt.vars)
 			if res == "sat" {
 				w := Witness{Model: map[string]uint64{}, Choices: append([]int{}, i.run.hchoices...), AllChoices: append([]int{}, i.run.choices...), Trace: strings.Join(i.run.samples, "; ")}
@@ -839,6 +840,7 @@ func (i *interpreter) reportViolation(label string, m map[string]uint64) {
 	v.Trace = strings.Join(i.run.samples, "; ")
 	if kf := i.matchKnown(label); kf != nil {
 		v.Known = kf.What
+		i.run.knownHit = true
 	}
 	e.mu.Lock()
 	defer e.mu.Unlock()
